@@ -41,6 +41,9 @@ pub fn change_for(files: &[(String, String)], structural: bool) -> Change {
 pub enum Shape {
     OnePackage,
     TwoPackages,
+    /// the modules belong to no package of the package graph: a source root without a gleam.toml that the graph knows
+    /// (what the server makes of a free-standing file, and of a project whose graph has not been assembled yet)
+    NoPackage,
 }
 
 impl Shape {
@@ -48,8 +51,11 @@ impl Shape {
     pub fn seeded(seed: u64, case_index: usize) -> Shape {
         if (seed.wrapping_add(case_index as u64)) % 4 == 3 { Shape::OnePackage } else { Shape::TwoPackages }
     }
+    pub fn parse(s: &str) -> Option<Shape> {
+        match s { "one-package" => Some(Shape::OnePackage), "two-packages" => Some(Shape::TwoPackages), "no-package" => Some(Shape::NoPackage), _ => None }
+    }
     pub fn name(self) -> &'static str {
-        match self { Shape::OnePackage => "one-package", Shape::TwoPackages => "two-packages" }
+        match self { Shape::OnePackage => "one-package", Shape::TwoPackages => "two-packages", Shape::NoPackage => "no-package" }
     }
 }
 
@@ -81,6 +87,19 @@ pub fn gen_workspace(shape: Shape, modules: &[(&str, &str)]) -> Ws {
             let mut g = PackageGraph::default();
             g.add_package("test".into(), FileId(n), true);
             change.set_package_graph(g);
+        }
+        Shape::NoPackage => {
+            let mut set = FileSet::default();
+            for (n, t) in modules {
+                let (twin, name) = split(n);
+                files.push((format!("/{}/{name}.gleam", if twin { "src" } else { "test" }), t.to_string()));
+            }
+            for (i, (p, t)) in files.iter().enumerate() {
+                set.insert(FileId(i as u32), VfsPath::new(p));
+                change.change_file(FileId(i as u32), t.as_str().into());
+            }
+            change.set_roots(vec![SourceRoot::new(set, "/".into())]);
+            change.set_package_graph(PackageGraph::default());
         }
         Shape::TwoPackages => {
             let mut app = FileSet::default();
